@@ -34,6 +34,12 @@ type hstream struct {
 	clock    *int
 	withData bool // deliver the final bytes together with the end-of-stream (n>0, io.EOF)
 	maxWrite int  // Write accepts at most this many bytes per call (short writes are legal for io.Writer? no: must return err) -> 0 = all
+	// write fault: the writeFailAt-th Write (from 1) accepts writePartial bytes and fails with writeFailErr
+	writeFailAt  int
+	writePartial int
+	writeFailErr error
+	writes       int
+	writeFailed  bool
 }
 
 func (s *hstream) Read(p []byte) (int, error) {
@@ -74,6 +80,13 @@ func (s *hstream) Write(p []byte) (int, error) {
 	vsched.Point("stream.Write")
 	if s.closed {
 		return 0, io.ErrClosedPipe
+	}
+	s.writes++
+	if s.writeFailAt > 0 && s.writes == s.writeFailAt {
+		n := min(s.writePartial, len(p))
+		s.out = append(s.out, p[:n]...)
+		s.writeFailed = true
+		return n, s.writeFailErr
 	}
 	s.out = append(s.out, p...)
 	return len(p), nil
@@ -119,6 +132,16 @@ func c40Lookup(name string) e2.RunFn {
 		clock := 0
 		A := &hstream{name: "a", clock: &clock, withData: kv["eofdata"] == "1"}
 		B := &hstream{name: "b", clock: &clock, withData: kv["eofdata"] == "1"}
+		// "wfail=<k>:<partial>:<timeout|plain>": B's k-th Write accepts <partial> bytes and fails
+		if w := kv["wfail"]; w != "" {
+			f := strings.Split(w, ":")
+			fmt.Sscan(f[0], &B.writeFailAt)
+			fmt.Sscan(f[1], &B.writePartial)
+			B.writeFailErr = errors.New("stream b: write failed")
+			if f[2] == "timeout" {
+				B.writeFailErr = fmt.Errorf("stream b: write: %w", os.ErrDeadlineExceeded)
+			}
+		}
 		var fedA, fedB []byte
 		completed := false
 		var pipeErrs []error
@@ -173,6 +196,11 @@ func c40Lookup(name string) e2.RunFn {
 		if x.Violation != "" {
 			return x
 		}
+		if B.writeFailed {
+			// the stream broke while being written to: nothing further is owed beyond what the
+			// cases above demand (both ends closed, completion reported, delivered bytes a prefix)
+			return x
+		}
 		// the side whose end the pipe consumed first, while the other stream was still open,
 		// had finished: everything it wrote must have arrived
 		// (when the final bytes come together with the end-of-stream, the write of those bytes
@@ -223,6 +251,20 @@ func c40Scenarios(thorough bool) []string {
 			}
 		}
 	}
+	// a Write on side b fails once (k-th write, 0 or 1 bytes accepted, timeout-class or plain
+	// error) while more data follows
+	for _, a := range []string{"2,1", "1,1,1", "2,2,2"} {
+		for _, k := range []int{1, 2} {
+			for _, part := range []int{0, 1} {
+				for _, kind := range []string{"timeout", "plain"} {
+					if !thorough && (a == "2,2,2" || (kind == "plain" && part == 1)) {
+						continue
+					}
+					out = append(out, fmt.Sprintf("a=%s;b=1;enda=eof;endb=never;wfail=%d:%d:%s", a, k, part, kind))
+				}
+			}
+		}
+	}
 	return out
 }
 
@@ -241,6 +283,6 @@ func c40(c *report.Check) {
 	}
 	sum := e2.Drive(c, plans, 0)
 	c.Set("deviation_bound", tb)
-	reportE2(c, sum, fmt.Sprintf("the real tun.Pipe (two copier goroutines + completion goroutine, instrumented: sync->vsync, go statements, channel operations) over two scheduler-aware in-memory streams fed by two application threads with chunked payloads in both directions and every combination of how the sides end (EOF / error / never; final bytes delivered separately from or together with the end-of-stream): every schedule of %d scenarios with at most %d deviations from the canonical schedule", len(scns), tb), scns)
+	reportE2(c, sum, fmt.Sprintf("the real tun.Pipe (two copier goroutines + completion goroutine, instrumented: sync->vsync, go statements, channel operations) over two scheduler-aware in-memory streams fed by two application threads with chunked payloads in both directions and every combination of how the sides end (EOF / error / never; final bytes delivered separately from or together with the end-of-stream; plus scenarios in which one Write of side b fails once - k-th write, 0 or 1 bytes accepted, timeout-class or plain error - while more data follows): every schedule of %d scenarios with at most %d deviations from the canonical schedule", len(scns), tb), scns)
 	c.Assume("io.CopyBuffer and the buffer pool are atomic library steps between stream operations; stream Read/Write/Close are scheduling points", "an application stops writing into a stream it sees closed")
 }
